@@ -346,3 +346,27 @@ Section Std.
     destruct (Hset lgs cgs en rw s s' E) as (r & _ & Hv' & _). congruence.
   Qed.
 End Std.
+
+(** * ValidateGenesis without a funding account: only the parameters are validated *)
+Lemma validate_genesis_no_from_ok lgs cgs shape g steps :
+  g_from g = FromEmpty ->
+  forallb (fun ts => fst ts || is_gv_params (snd ts)) steps = true ->
+  params_validate lgs cgs shape (g_enable g) (g_rewards g) = Ok true ->
+  validate_genesis lgs cgs shape steps g = Ok true.
+Proof.
+  intros Hf Hall Hpv. induction steps as [|[t st] steps IH]; cbn [validate_genesis forallb fst snd] in *; [reflexivity|].
+  apply andb_true_iff in Hall as [Hh Hall]. rewrite Hf. destruct t; cbn [andb orb] in *; [apply IH; exact Hall|].
+  destruct st; try discriminate. cbn [gvstep_rejects]. rewrite Hpv. cbn [negb]. apply IH; exact Hall.
+Qed.
+
+Lemma validate_genesis_no_from_reject lgs cgs shape g steps :
+  g_from g = FromEmpty ->
+  forallb (fun ts => fst ts || is_gv_params (snd ts)) steps = true ->
+  existsb (fun ts => negb (fst ts) && is_gv_params (snd ts)) steps = true ->
+  params_validate lgs cgs shape (g_enable g) (g_rewards g) = Ok false ->
+  validate_genesis lgs cgs shape steps g = Ok false.
+Proof.
+  intros Hf Hall Hex Hpv. induction steps as [|[t st] steps IH]; cbn [validate_genesis forallb existsb fst snd] in *; [discriminate|].
+  apply andb_true_iff in Hall as [Hh Hall]. rewrite Hf. destruct t; cbn [andb orb negb] in *; [apply IH; assumption|].
+  destruct st; try discriminate. cbn [gvstep_rejects]. rewrite Hpv. reflexivity.
+Qed.
